@@ -86,6 +86,11 @@ chk("C11","exploration",
  "compared with a reference model computed from the observed invocation log (publish on higher level, value identity, final on done/exhaustion/ctx end, stability, watcher release).",
  "Value on Incomplete/ctx end is not pinned down by the property and not checked; completion waits use the bounded hang rule.",
  "runtime monitoring: reference-model comparison of snapshots taken at logical instants of gated executions","DESIGN.md 6 C11","corr")
+chk("C15","exploration",
+ "The engines' concurrent workloads (all call kinds, cancellations, timeouts, concurrent configuration creation and Nodes()/NodeIDs()/Size(), early/helper Release, restarts, re-dial of down nodes, Close under traffic) run in a binary built with -race, with a sync-free sleep-only hook and monitors without shared state, at GOMAXPROCS 2/4/16; "
+ "the detector's log files are parsed, reports attributed (library vs harness) and de-duplicated by function pair.",
+ "The detector sees only executed code and only races that happen in the run; a clean run is not a proof. Hook coverage evidence comes from the non-race twins (C03, C05, C09, C12).",
+ "Go race detector over hostile concurrent workloads with sleep-driven windows; log-parsing oracle","DESIGN.md 6 C15, 4.3, 4.6","races")
 chk("C16","exploration",
  "Runs the real protoc-gen-gorums binary (built from the working tree) as a subprocess on hundreds/thousands of synthesized service descriptors: documented-legal lattice, every documented illegal input, identifier-collision inputs; "
  "observes exit status/diagnostic/response, compiles accepted output with protoc-gen-go's output in one go build, and repeats each run to compare bytes.",
@@ -108,7 +113,7 @@ m={
  ],
  "checks":[C[k] for k in sorted(C)],
  "notes":"See DESIGN.md. Known findings: known_findings.json. Every check rebuilds plugins, stubs and engines from /repo's working tree.",
- "not_applicable":[{"property_id":i,"reason":"check under construction in this round (DESIGN.md section 11); not claimed yet"} for i in ids if i not in C]
+ "not_applicable":[{"property_id":i,"reason":"check under construction (DESIGN.md section 11); not claimed yet"} for i in ids if i not in C]
 }
 json.dump(m,open('/verif/MANIFEST.json','w'),indent=1)
 print("checks:",sorted(C))
